@@ -527,6 +527,7 @@ func TestRegress(t *testing.T) {
 func TestReplay(t *testing.T) {
 	run.ReplayOne(t, trackSpec)
 	run.ReplayOne(t, streamSpec)
+	run.ReplayOne(t, bigTrackSpec)
 }
 
 // FuzzIGC is the coverage-guided byte-level target (thorough tier).
